@@ -30,6 +30,7 @@ def dispatch (line : String) : String :=
     | "sched-close" => schedCloseCmd rest
     | "sched-rec" => schedRecCmd rest
     | "sched-rec-overlap" => schedRecOverlapCmd rest
+    | "catcher-api" => catcherApiCmd rest
     | "conc-coll" => concCollCmd rest
     | "catcher" => catcherCmd rest
     | "views" => viewsCmd rest
